@@ -5,6 +5,7 @@ import (
 	"encoding/json"
 	"fmt"
 	"html/template"
+	"reflect"
 	"regexp"
 	"sort"
 	"strconv"
@@ -26,7 +27,7 @@ import (
 // its caller's scope.
 
 type c09Node struct {
-	T     string     // let | probe | for | fndef | call | partial | pagain | cfdef | cfcall | cof | blk | if | hash
+	T     string     // let | probe | for | fndef | call | fcall | exit | partial | pagain | cfdef | cfcall | cof | blk | if | hash | rename
 	Name  string     // let/probe: variable; fndef/call: function; partial/pagain: partial name; cf*: content name; hash: the variable holding the hash
 	A     c09Arg     // let: right-hand side
 	Args  []c09Arg   // call: one argument per parameter of the function
@@ -37,7 +38,9 @@ type c09Node struct {
 	Data  []c09Datum // partial/pagain/cfcall/cof/blk: name, value pairs of an inline hash; hash: the pairs of the hash
 	HVar  string     // partial/pagain/cfcall/cof/blk: the data is the hash held in this variable (no inline hash)
 	HKeys []string   // with HVar: the keys of that hash (generation only)
-	Go    bool       // hash: not a let in the template but a Go map[string]interface{} put in the render context
+	Go    bool       // hash: not a let in the template but a Go map[string]interface{} put in the render context; let: a value the application put in the render context (ctx.Set) before the render
+	Iter  string     // for: what is iterated: "" an array literal of Elems; "nil" a nil value (no iteration); "hash" a one-pair hash literal {k: Elems[0]} (the key variable is bound to "k")
+	Form  int        // fcall: which forgiving position the call is written in (see c09FcallForms)
 	Body  []*c09Node
 	Label string // probe: where it sits (after-<construct> | in-<construct> | top)
 }
@@ -115,6 +118,30 @@ type c09Machine struct {
 	unsafe                          map[int]bool // variable reads (RID) that met an unbound / nil / unpredicted value
 }
 
+// c09Unwind: a construct left before its end. "fail": a statement of a function body raised an unknown
+// identifier - the call fails, and so does every plain call it was made from, up to the nearest call that is
+// written in a position that forgives an unknown identifier (fcall); the render then goes on after that call.
+// "return": the function body ends here. "break" / "continue": the loop / the iteration ends here.
+// Whichever way a construct is left, its scope ends.
+type c09Unwind struct{ how string }
+
+// guarded: runs f; reports how it was left ("" = ran to its end). Anything not in catch keeps unwinding.
+func (m *c09Machine) guarded(catch []string, f func()) (how string) {
+	depth := m.argDepth
+	defer func() {
+		if r := recover(); r != nil {
+			u, ok := r.(c09Unwind)
+			if !ok || !c09In(catch, u.how) {
+				panic(r)
+			}
+			m.argDepth = depth
+			how = u.how
+		}
+	}()
+	f()
+	return ""
+}
+
 // eval: every operand is evaluated in the scope where it is written.
 func (m *c09Machine) eval(a c09Arg, env *c09Env) string {
 	switch {
@@ -155,7 +182,11 @@ func (m *c09Machine) call(n *c09Node, env *c09Env) {
 			c.fromVar[p] = true
 		}
 	}
-	m.run(d.n.Body, c)
+	catch := []string{"return"}
+	if n.T == "fcall" {
+		catch = append(catch, "fail")
+	}
+	m.guarded(catch, func() { m.run(d.n.Body, c) })
 }
 
 // withData: the values are evaluated where the hash is written (in), the names are bound in a child of e.
@@ -205,6 +236,9 @@ func (m *c09Machine) run(ns []*c09Node, env *c09Env) {
 			for i, e := range n.Elems { // the collection is evaluated once, outside the loop's scope
 				elems[i] = m.eval(e, env)
 			}
+			if n.Iter == "nil" {
+				elems = nil
+			}
 			c := c09Child(env)
 			for i, e := range elems {
 				if m.iterFresh {
@@ -212,14 +246,21 @@ func (m *c09Machine) run(ns []*c09Node, env *c09Env) {
 				}
 				if n.K != "" {
 					c.vars[n.K] = strconv.Itoa(i)
+					if n.Iter == "hash" {
+						c.vars[n.K] = "k"
+					}
 				}
 				c.vars[n.V] = e
-				m.run(n.Body, c)
+				if m.guarded([]string{"break", "continue"}, func() { m.run(n.Body, c) }) == "break" {
+					break
+				}
 			}
 		case "fndef", "cfdef":
 			m.defs[n.Name] = c09Closure{n, env}
-		case "call":
+		case "call", "fcall":
 			m.call(n, env)
+		case "exit":
+			panic(c09Unwind{n.Name})
 		case "cfcall":
 			d := m.defs[n.Name]
 			base := env
@@ -254,7 +295,7 @@ func c09Predict(prog []*c09Node) (ids []int, allowed [][]string, dyn []string, u
 	unsafe = map[int]bool{}
 	for mode := 0; mode < 8; mode++ {
 		m := &c09Machine{iterFresh: mode&1 != 0, fnLexical: mode&2 != 0, cfLexical: mode&4 != 0, defs: map[string]c09Closure{}, unsafe: unsafe}
-		m.run(prog, c09Child(nil))
+		m.guarded([]string{"fail", "return", "break", "continue"}, func() { m.run(prog, c09Child(nil)) }) // (the generator never lets one reach the top)
 		if mode == 0 {
 			for _, o := range m.log {
 				ids = append(ids, o.ID)
@@ -305,6 +346,7 @@ type c09Case struct {
 	Tmpl     string                       `json:"tmpl"`
 	Partials map[string]string            `json:"partials,omitempty"`
 	Maps     map[string]map[string]string `json:"maps,omitempty"` // Go maps (map[string]interface{}) put in the render context under these names
+	Vars     map[string]string            `json:"vars,omitempty"` // values the application put in the render context (ctx.Set) before the render
 	Seq      []c09Expect                  `json:"seq"`            // probes in execution order
 	Shape    string                       `json:"shape"`
 	Feat     []string                     `json:"feat,omitempty"` // operand forms present (distribution tags only)
@@ -358,6 +400,20 @@ func c09Mismatch(e c09Expect, got string) (string, string) {
 	return typ + ":" + lab, fmt.Sprintf("probe %d of %q (%s): expected %s, observed %q", e.ID, e.Name, lab, strings.Join(e.Want, " or "), got)
 }
 
+// c09Missing: the identifier no program binds; evaluating it is how a function body fails.
+const c09Missing = "c09nope"
+
+// c09IsGlobalHelper: v is the helper plush registers globally under this name, i.e. what a name that the
+// program (and the application) never bound resolves to when it happens to be called like a built-in helper.
+func c09IsGlobalHelper(name string, v interface{}) bool {
+	h, ok := plush.Helpers.All()[name]
+	if !ok || v == nil {
+		return false
+	}
+	a, b := reflect.ValueOf(v), reflect.ValueOf(h)
+	return a.Kind() == reflect.Func && b.Kind() == reflect.Func && a.Pointer() == b.Pointer()
+}
+
 func c09Eval(cs *c09Case) (v c09Verdict) {
 	var mu sync.Mutex
 	type rec struct {
@@ -375,7 +431,7 @@ func c09Eval(cs *c09Case) (v c09Verdict) {
 		},
 		"c09p": func(id int, name string, help plush.HelperContext) string {
 			val := "-"
-			if x := help.Value(name); x != nil {
+			if x := help.Value(name); x != nil && !c09IsGlobalHelper(name, x) {
 				val = fmt.Sprint(x)
 			}
 			mu.Lock()
@@ -384,7 +440,13 @@ func c09Eval(cs *c09Case) (v c09Verdict) {
 			return ""
 		},
 		"c09v": func(name string, help plush.HelperContext) interface{} { // reads a name that may be unbound / nil
-			return help.Value(name)
+			if x := help.Value(name); !c09IsGlobalHelper(name, x) {
+				return x
+			}
+			return nil // not bound by the program: the built-in helper of that name shows through
+		},
+		"c09g": func(name string, help plush.HelperContext) bool { // the name resolves to the built-in helper: unbound
+			return c09IsGlobalHelper(name, help.Value(name))
 		},
 		"c09with": func(data map[string]interface{}, help plush.HelperContext) (template.HTML, error) {
 			c := help.New()
@@ -395,6 +457,9 @@ func c09Eval(cs *c09Case) (v c09Verdict) {
 			return template.HTML(s), err
 		},
 	})
+	for name, x := range cs.Vars {
+		ctx.Set(name, x)
+	}
 	for name, kv := range cs.Maps {
 		gm := map[string]interface{}{}
 		for k, x := range kv {
@@ -431,6 +496,9 @@ func c09Eval(cs *c09Case) (v c09Verdict) {
 		lab := "end"
 		if len(got) < len(cs.Seq) {
 			lab = cs.Seq[len(got)].Label
+		}
+		if strings.Contains(o.Err.Error(), c09Missing) { // the failure of a function body was not forgiven where it was called
+			lab = "forgiven-failure-propagated:" + lab
 		}
 		return c09Verdict{Kind: "wrong-error", Site: "render-error:" + lab, What: fmt.Sprintf("render failed after %d of %d probes: %v", len(got), len(cs.Seq), o.Err)}
 	}
@@ -497,12 +565,13 @@ func c09Record(rep *Report, cs *c09Case, v c09Verdict) {
 func init() {
 	oracles["C09"] = func(cfg Config) []*Report {
 		rep := NewReport("C09", "C09", cfg)
-		rep.Rule = "programs = nestings to depth 3 of {for, user function definition+call, partial (partialFeeder), contentFor+contentOf with data, contentOf with own block and data, block helper using BlockWith(own context), transparent if} over the names x,y,z with let / shadowing let / loop variables, 0-3 parameters per function and data keys drawn from the same names; every operand position (call argument, let right-hand side, hash value of partial/contentOf/block-helper data, element of a loop's array) holds a literal, a read of one of the names (steered towards names the receiving construct binds itself and that are bound at the call site: f(y, x) for fn(x, y), {x: y, y: x}, let x = x, for (x) in [x]) or - arguments and let - a call of a user function whose body probes, nested up to 2 deep; operands are predicted in the scope where they are written (arguments left to right in the caller's scope before any parameter is bound); a read is written as the bare identifier when the reference says it is bound to a known non-nil value in every reading, else through the helper c09v (plush rejects unbound/nil identifiers: not this property); the data of a partial / contentOf / block helper is an inline hash (a fresh value per evaluation) or a hash that outlives the call: held in a template variable (let h1 = {…}, written in any block, ~11% of programs hand one to a partial, ~8% to contentOf) or a Go map[string]interface{} in the render context (g1, 20% of programs), handed to any number of later constructs (in sequence, nested, in loops, in function bodies); a partial rendered earlier is rendered again from the same or a deeper block with the same or other data (~5%); the reference treats a hash as a value: every construct binds the pairs it had when it was written; and a probe before, inside (first and last) and after every construct; each probe observes a name through a helper's HelperContext and, outside function bodies, through the output (<%= x == nil %>, <%= x %>); prediction by an environment-chain interpreter run in all 8 readings of what the property leaves open (scope per loop vs per iteration; function and contentFor bodies resolved in the defining vs the calling scope), union accepted per probe. Every case reaches >= 1 scoped construct except shape=flat (top-level let persistence, ~3%); non-trivial = has a scoped construct; distinct by case text"
+		rep.Rule = "programs = nestings to depth 3 of {for, user function definition+call, partial (partialFeeder), contentFor+contentOf with data, contentOf with own block and data, block helper using BlockWith(own context), transparent if} over the names x,y,z with let / shadowing let / loop variables, 0-3 parameters per function and data keys drawn from the same names; every operand position (call argument, let right-hand side, hash value of partial/contentOf/block-helper data, element of a loop's array) holds a literal, a read of one of the names (steered towards names the receiving construct binds itself and that are bound at the call site: f(y, x) for fn(x, y), {x: y, y: x}, let x = x, for (x) in [x]) or - arguments and let - a call of a user function whose body probes, nested up to 2 deep; operands are predicted in the scope where they are written (arguments left to right in the caller's scope before any parameter is bound); a read is written as the bare identifier when the reference says it is bound to a known non-nil value in every reading, else through the helper c09v (plush rejects unbound/nil identifiers: not this property); the data of a partial / contentOf / block helper is an inline hash (a fresh value per evaluation) or a hash that outlives the call: held in a template variable (let h1 = {…}, written in any block, ~11% of programs hand one to a partial, ~8% to contentOf) or a Go map[string]interface{} in the render context (g1, 20% of programs), handed to any number of later constructs (in sequence, nested, in loops, in function bodies); a partial rendered earlier is rendered again from the same or a deeper block with the same or other data (~5%); the reference treats a hash as a value: every construct binds the pairs it had when it was written; every way out of a construct ends its scope: ~14% of loop bodies are left by break / continue and ~12% of function bodies by return (written in the body or under ifs), ~20% of functions fail (an unknown identifier in the body, under ifs and loops, or a plain call of another failing function) and are called only where plush forgives an unknown identifier (condition of if / else if, operand of !, either operand of == != && ||; 10 forms) from any block (top level, loop bodies, other functions' bodies), the render goes on after the call with the callee's parameters and lets gone; loops iterate over an array literal, a nil value (~5%) or a one-pair hash (~8%); in 30% of programs some of x,y,z are written as names plush also registers a global helper under (env, len, json, raw, … - every such name except the helpers the templates call), where unbound means that the built-in helper shows through (helpers c09p / c09v / c09g compare with plush.Helpers); in 15% one or two names are bound by the application (ctx.Set before the render) instead of by let; and a probe before, inside (first and last) and after every construct; each probe observes a name through a helper's HelperContext and, outside function bodies, through the output (<%= x == nil %>, <%= x %>); prediction by an environment-chain interpreter run in all 8 readings of what the property leaves open (scope per loop vs per iteration; function and contentFor bodies resolved in the defining vs the calling scope), union accepted per probe. Every case reaches >= 1 scoped construct except shape=flat (top-level let persistence, ~3%); non-trivial = has a scoped construct; distinct by case text"
 		rep.Notes = append(rep.Notes,
 			"not checked: the contents of a hash variable / Go map after it was handed to a construct (h1[\"x\"], len(h1)) - only the names x,y,z are observed, so a construct that writes into its data is seen when the same hash reaches a second construct",
 			"not checked (left open by the statement): assignment (x = …) inside a construct; let directly inside an if block (if is not a scope); block helpers using help.Block(); whether a let in a loop body is visible to the next iteration; lexical vs dynamic resolution of a function's free variables",
 			"the value of a user-function call is never predicted (a name bound to it accepts any observation); probes that ran while a call's arguments were being evaluated, or that look at a parameter whose argument was a variable read, carry +during-args / +param-from-var in the failure site",
-			"function bodies are written across tags without return and observed only through the helper probe, so the oracle does not depend on what a call's value is (C16)")
+			"function bodies are written across tags and observed only through the helper probe, so the oracle does not depend on what a call's value is (C16); a return is only written in the function body itself or under ifs (what a return inside a loop or a helper block does is not this property's business), a failure never inside a partial / contentOf / block helper (a Go helper wraps the error, plush does not forgive it then)",
+			"a forgiven call is written with empty if blocks / as a printed boolean: what a failed call evaluates to is not checked, only the scopes afterwards; a render error naming the missing identifier gets the site render-error:forgiven-failure-propagated:…")
 		if cfg.Arg != "" {
 			var cs c09Case
 			if err := json.Unmarshal([]byte(cfg.Arg), &cs); err != nil {
